@@ -225,6 +225,21 @@ def run(run):
                 got = -9999999
             add({"ev": "Conv", "kind": "snr_from_powers", "a_cdb": a, "b_cdb": b, "got_cdb": got}, name, dict(cfg, tool=name))
             run.case(("tool", name, cfg["value"], cfg["signal_power"], cfg["complex"]), nontrivial=True)
+    # the SNR metric on a batch (one value per row, each row against its own powers) and in linear mode
+    for (cfg, fx, y, sig, p) in tools[:6]:
+        try:
+            X, Y = fx.reshape(4, -1), y.reshape(4, -1)
+            vals_db = SignalToNoiseRatio()(X, Y).reshape(-1).double().tolist()
+            vals_lin = SignalToNoiseRatio(mode="linear")(X, Y).reshape(-1).double().tolist()
+        except Exception as ex:
+            vals_db, vals_lin = [float("nan")] * 4, [float("nan")] * 4
+        for r in range(4):
+            xr, nr = X[r].to(torch.complex128) if X.is_complex() else X[r].double(), (Y[r] - X[r]).to(torch.complex128) if X.is_complex() else (Y[r] - X[r]).double()
+            a_r, b_r = cdb(float((xr.abs() ** 2).mean())), cdb(float((nr.abs() ** 2).mean()))
+            for form, v in (("batched_db", vals_db[r] if r < len(vals_db) else float("nan")), ("batched_linear", 10 * math.log10(vals_lin[r]) if r < len(vals_lin) and vals_lin[r] > 0 and math.isfinite(vals_lin[r]) else float("nan"))):
+                got = sint(v * 100) if math.isfinite(v) else 9999999
+                add({"ev": "Conv", "kind": "snr_from_powers", "a_cdb": a_r, "b_cdb": b_r, "got_cdb": got}, "SignalToNoiseRatio", dict(cfg, tool="SignalToNoiseRatio", form=form, row=r))
+                run.case(("tool", "SignalToNoiseRatio", form, r, cfg["value"], cfg["signal_power"], cfg["complex"]), nontrivial=True)
     grid = [d / 2.0 for d in range(-40, 81)] if not quick else [d * 2.5 for d in range(-8, 17)]
     for d in grid:
         for form in ("float", "tensor"):
